@@ -4,17 +4,22 @@
 (* append-only; CAN/SUB always return to ground; in ground no string is     *)
 (* pending; a control sequence that is dispatched carries exactly the       *)
 (* intermediates and parameter characters received since its introducer     *)
-(* (declarative characterisation, independent of the state table).          *)
+(* (declarative characterisation, independent of the state table); an       *)
+(* ESC \ is withheld exactly when its ESC ended a string state, is optional  *)
+(* only when its ESC cut a DCS header short, and is delivered otherwise      *)
+(* (StSuppressedOnlyAtStringEnd: no suppression outlives the character after *)
+(* the ESC that ended the string).  The relational transitions (FeedSet) are *)
+(* all explored.                                                             *)
 EXTENDS VT500, TLC
 CONSTANT MaxLen
 
 Reps == {10, 7, 24, 27, 35, 49, 59, 58, 63, 65, 79, 80, 88, 91, 92, 93, 95, 109, 127, 233, 19990}
 
-VARIABLES p, hist
-vars == <<p, hist>>
+VARIABLES p, hist, prev      \* prev: the state the last symbol was received in
+vars == <<p, hist, prev>>
 
-Init == p = Init0 /\ hist = <<>>
-Next == Len(hist) < MaxLen /\ \E x \in Reps : p' = Feed(p, x) /\ hist' = Append(hist, x)
+Init == p = Init0 /\ hist = <<>> /\ prev = "ground"
+Next == Len(hist) < MaxLen /\ \E x \in Reps : p' \in FeedSet(p, x) /\ hist' = Append(hist, x) /\ prev' = p.st
 Spec == Init /\ [][Next]_vars
 
 IsPrefixOf(a, b) == Len(a) <= Len(b) /\ \A k \in 1..Len(a) : a[k] = b[k]
@@ -44,7 +49,15 @@ CsiCarriesOnlyItsOwn ==
               /\ p'.out[n].p = CsiParams(Filter(body, IsPar))
               /\ p'.out[n].f = tl[Len(tl)]]_vars
 
+StSuppressedOnlyAtStringEnd ==
+  [][(Len(hist) >= 1 /\ hist[Len(hist)] = 27 /\ hist'[Len(hist')] = 92) =>
+       LET n == Len(p'.out) IN
+       IF prev \in StringStates THEN p'.out = p.out
+       ELSE IF prev \in DcsHeadStates THEN TRUE
+       ELSE n > Len(p.out) /\ p'.out[n] = EscI(<<>>, 92)]_vars
+
 States == {"ground", "escape", "escInter", "ss3", "csiEntry", "csiParam", "csiInter", "csiIgnore", "dcsEntry",
            "dcsParam", "dcsInter", "dcsPass", "dcsIgnore", "sosPm", "apc", "osc", "unconstrained"}
-TypeOK == p.st \in States /\ p.sup \in {"no", "yes", "either"}
+TypeOK == p.st \in States /\ p.sup \in {"no", "yes", "either"} /\ p.st # "unconstrained"
+          /\ p.ctx \in {"", "after-abandoned-dcs-header", "esc-esc-after-string"}
 =============================================================================
